@@ -440,6 +440,10 @@ func vndIntrinsic(in *Interp, st *State, fn *ssa.Function, args []Value, retTo s
 		return tf.LOr(tf.LNot(in.termOf(args[0], "Implies")), in.termOf(args[1], "Implies")), true
 	case "Ite64", "Ite8", "IteInt":
 		return tf.Ite(in.termOf(args[0], "Ite"), in.termOf(args[1], "Ite"), in.termOf(args[2], "Ite")), true
+	case "ClockJump":
+		st.lastMono = nil
+		st.clockJump = true
+		return nil, true
 	case "RefTZ64":
 		return in.refTZ64(in.termOf(args[0], "RefTZ64")), true
 	case "U128From":
@@ -713,10 +717,13 @@ func (in *Interp) nextMono(st *State) *Term {
 	if st.lastMono != nil {
 		in.addConstraint(st, tf.Cmp("bvule", st.lastMono, m))
 		in.addConstraint(st, tf.Cmp("bvult", tf.Bin("bvsub", m, st.lastMono), tf.ConstU(64, 3600*1000000000)))
+	} else if st.clockJump && st.prevMono != nil {
+		in.addConstraint(st, tf.Cmp("bvule", st.prevMono, m))
 	} else {
 		in.addConstraint(st, tf.Cmp("bvule", tf.ConstU(64, 1<<40), m))
 	}
 	st.lastMono = m
+	st.prevMono = m
 	return m
 }
 
